@@ -268,7 +268,11 @@ def expand_item(repo, relfile, selector, body, tmpl_name, tmpl_line, opts):
             n, hdr, itname = arg
             loops = list(rs.loop_headers(m, fp.body_open + 1, fp.body_close))
             if n < 1 or n > len(loops):
-                raise LostAnchor("%s: loop %d not found (%d loops)" % (selector, n, len(loops)))
+                # the loop is gone (e.g. moved into a helper): its invariant has nothing to attach to; the function is
+                # still verified against its contract, without that hint
+                out.rules.append(("T7o", "%s:%d" % (relfile, out.repo_lines[0]),
+                                  "loop %d not found (%d loops): invariant dropped" % (n, len(loops))))
+                continue
             s, b = loops[n - 1]
             if hdr and not _norm(src[s:b]).startswith(_norm(hdr)):
                 raise LostAnchor("%s: loop %d header is `%s`, expected `%s`" % (selector, n, _norm(src[s:b]), hdr))
@@ -280,9 +284,17 @@ def expand_item(repo, relfile, selector, body, tmpl_name, tmpl_line, opts):
                 if not mh:
                     raise LostAnchor("%s: loop %d is not a simple `for x in E` loop" % (selector, n))
                 x_, e_ = mh.group(1), mh.group(2)
-                add(s, b, "let __seq_%s = %s; for %s in 0..__seq_%s.len() " % (iv, _norm(e_), iv, iv),
-                    ("repo", relfile, line_of(src, s)), "T8b", "`for %s in <owned Vec>` -> index loop over a borrowed element" % x_)
-                add(b + 1, b + 1, " let %s = &__seq_%s[%s];" % (x_, iv, iv), ("repo", relfile, line_of(src, s)), None)
+                mi2 = re.match(r"^(.*?)\s*\.\s*iter\s*\(\s*\)$", _norm(e_))
+                if mi2:
+                    # T8c: `for X in E.iter() {`  ->  `for i in 0..E.len() { let X = &E[i];`
+                    ev = mi2.group(1)
+                    add(s, b, "for %s in 0..%s.len() " % (iv, ev),
+                        ("repo", relfile, line_of(src, s)), "T8c", "`for %s in %s.iter()` -> index loop" % (x_, ev))
+                    add(b + 1, b + 1, " let %s = &%s[%s];" % (x_, ev, iv), ("repo", relfile, line_of(src, s)), None)
+                else:
+                    add(s, b, "let __seq_%s = %s; for %s in 0..__seq_%s.len() " % (iv, _norm(e_), iv, iv),
+                        ("repo", relfile, line_of(src, s)), "T8b", "`for %s in <owned Vec>` -> index loop over a borrowed element" % x_)
+                    add(b + 1, b + 1, " let %s = &__seq_%s[%s];" % (x_, iv, iv), ("repo", relfile, line_of(src, s)), None)
             elif itname:
                 # T7i: name the ghost iterator of a for loop:  `for x in E {`  ->  `for x in <name>: E {`
                 mi = re.search(r"\bin\s+", m[s:b])
@@ -292,6 +304,9 @@ def expand_item(repo, relfile, selector, body, tmpl_name, tmpl_line, opts):
                     "ghost iterator of the for loop named `%s`" % itname)
         elif d == "noop-closure":
             pass
+        elif d == "attr":
+            # a verifier attribute in front of the item (specification only)
+            add(it.head, it.head, arg + "\n", origin, None)
         elif d == "rename":
             a_, b_ = arg
             for mm in re.finditer(r"\b%s\b" % re.escape(a_), m[lo:hi]):
@@ -507,6 +522,9 @@ def parse_template(path):
                             continue
                         cur = (d2, (int(t.group(1)), t.group(2), t.group(3)), [], i + 1)
                         body.append(cur)
+                    elif d2 == "attr":
+                        body.append((d2, a2, [], i + 1))
+                        cur = None
                     elif d2 == "rename":
                         t = re.match(r"(\w+)\s*=>\s*(\w+)\s*$", a2)
                         body.append((d2, (t.group(1), t.group(2)), [], i + 1))
